@@ -216,10 +216,10 @@ PROPERTIES = {
     },
     "C20": {
         "title": "dc: streams deliver bytes exactly, or fail promptly with an error",
-        "steps": [{"kind": "bin", "engine": "dcmc", "families": ["C20"]}],
+        "steps": [{"kind": "bin", "engine": "dcmc", "families": ["C20"]}, loom("loommc_dcflow", "loomx", "s2n-quic-dc", "verif_loommc::c20_", 3, poison=False)],
         "technique": "deviation-bounded exploration of real s2n-quic-dc client/server stream pairs over a harness-owned simulated UDP network and over a harness-owned in-memory TCP connection (bach, virtual time): every fault per datagram index / every environment answer per socket call and per wire byte offset up to k deviations",
         "level_text": "A real stream::testing::{Client, Server} pair runs over bach's simulated UDP; the harness owns the network through its own queue allocator and takes one decision per datagram index (deliver / drop / duplicate 100 us later / delay 3x; blackhole from index i = peer vanished; forget = server map drop_state at index i). Iterative deviation bounding: k <= 2 where the fault-free run has <= 40 (quick) / 80 (thorough) datagrams, k <= 1 otherwise. Scenario grid: 6 operation orders (write-shutdown-read, concurrent read/write, shutdown before the peer finished reading, drop writer / reader mid-stream, write_all_from_fin) x request/response sizes {1, 1000, 9000, 40000} x read buffers {1, 100, 64 KiB} x MTU {1250, 1500, 9000, 16000, 16384, 32000}. Oracle: PRF content at every read, never more than the peer wrote, clean EOF only at the total where the peer's write half ended, nothing after EOF or an error, under finite faults both directions complete, after blackhole / forget everything resolves with an error within the idle timeout + 2 s, no task pending at the 100 s virtual horizon, no stall, no panic.",
-        "level_note": "UDP: as described; the vanish family also explores every pair (drop at i, blackhole or forget at j > i). TCP (family tcp): the real endpoint::open_stream / accept_stream / Reader / Writer run over a harness-owned in-memory connection (SimTcp implements the crate's Socket and Application traits with Protocol::Tcp, no hook in /repo); deviations per socket call (1 byte / half / all-but-one short read or partial write, Pending once, close, reset, forget the secret) and per wire byte offset of either direction (segment boundary, EOF cut, RST cut: every offset of the small transfers, every dc record boundary +-2 and the 64 KiB ring wrap of the larger ones), connection buffers from 100 bytes to 1 MiB, sizes up to 150 000 bytes (receive ring wraps). Not covered on TCP: the tokio acceptor task and socket glue (replaced by the harness's accept loop; a probe with real loopback sockets found that the acceptor rejects a first record above 10 000 bytes that arrives in pieces - outside what the explorer reaches, reported in DESIGN.md 9.5), TLS-over-TCP streams, a TCP peer that vanishes silently (no keepalive is configured: by design nothing reports it). One known finding on TCP (blocked FIN record dropped after 1 s). One genuine defect found through this engine on UDP (BBR minimum window overflow for MTU >= 16384) was repaired by a fix: commit. Allowance: when the client drops its read half with unread data the stream is reset in both directions (like TCP close with unread data).",
+        "level_note": "Thread interleavings of the application task and the send worker on the flow-credit hand-off (stream::send::flow::non_blocking::State: release / release_max racing a blocked acquire, two releases against two requests) are explored with loom (hook H7 twins the file's atomics and replaces atomic_waker by a loom-mutex shim with the same contract; preemption bound 2 quick / 3 thorough): the acquire future completes in every interleaving (a lost wake-up is a loom deadlock), credits are contiguous and within what was released. UDP: as described; the vanish family also explores every pair (drop at i, blackhole or forget at j > i). TCP (family tcp): the real endpoint::open_stream / accept_stream / Reader / Writer run over a harness-owned in-memory connection (SimTcp implements the crate's Socket and Application traits with Protocol::Tcp, no hook in /repo); deviations per socket call (1 byte / half / all-but-one short read or partial write, Pending once, close, reset, forget the secret) and per wire byte offset of either direction (segment boundary, EOF cut, RST cut: every offset of the small transfers, every dc record boundary +-2 and the 64 KiB ring wrap of the larger ones), connection buffers from 100 bytes to 1 MiB, sizes up to 150 000 bytes (receive ring wraps). Not covered on TCP: the tokio acceptor task and socket glue (replaced by the harness's accept loop; a probe with real loopback sockets found that the acceptor rejects a first record above 10 000 bytes that arrives in pieces - outside what the explorer reaches, reported in DESIGN.md 9.5), TLS-over-TCP streams, a TCP peer that vanishes silently (no keepalive is configured: by design nothing reports it). One known finding on TCP (blocked FIN record dropped after 1 s). One genuine defect found through this engine on UDP (BBR minimum window overflow for MTU >= 16384) was repaired by a fix: commit. Allowance: when the client drops its read half with unread data the stream is reset in both directions (like TCP close with unread data).",
         "design_ref": "DESIGN.md §3 C20",
         "assumptions": ["small-scope hypothesis", "bach's simulated UDP and the harness's in-memory TCP connection stand for the production sockets"],
     },
